@@ -84,33 +84,55 @@ impl<'a> ResolveScope<'a> {
         &self,
         name: &str,
     ) -> Option<&'a ValueReference<<Asn<Unresolved> as Target>::ValueReferenceType>> {
+        self.value_reference_via(name, self.scope.len())
+    }
+
+    /// Follows at most `hops` imports: a chain of re-exports that is longer than the number
+    /// of modules in scope is a cycle (a module importing the name from itself, or two modules
+    /// importing it from each other) and never leads to an assignment
+    fn value_reference_via(
+        &self,
+        name: &str,
+        hops: usize,
+    ) -> Option<&'a ValueReference<<Asn<Unresolved> as Target>::ValueReferenceType>> {
         self.model
             .value_references
             .iter()
             .find(|vr| vr.name.eq(name))
             .or_else(|| {
+                let hops = hops.checked_sub(1)?;
                 self.model_with_imported_item(name).and_then(|model| {
                     ResolveScope {
                         model,
                         scope: self.scope,
                     }
-                    .value_reference(name)
+                    .value_reference_via(name, hops)
                 })
             })
     }
 
     fn definition(&self, name: &str) -> Option<&'a Definition<Asn<Unresolved>>> {
+        self.definition_via(name, self.scope.len())
+    }
+
+    /// See [`Self::value_reference_via`]
+    fn definition_via(
+        &self,
+        name: &str,
+        hops: usize,
+    ) -> Option<&'a Definition<Asn<Unresolved>>> {
         self.model
             .definitions
             .iter()
             .find(|def| def.name().eq(name))
             .or_else(|| {
+                let hops = hops.checked_sub(1)?;
                 self.model_with_imported_item(name).and_then(|model| {
                     ResolveScope {
                         model,
                         scope: self.scope,
                     }
-                    .definition(name)
+                    .definition_via(name, hops)
                 })
             })
     }
